@@ -4,6 +4,7 @@ package playback
 // enumeration, corruption probes, playback-vs-disk comparison, retention.
 
 import (
+	"runtime/metrics"
 	"bytes"
 	"encoding/binary"
 	"encoding/json"
@@ -77,6 +78,15 @@ func (a *w3Analysis) call(root, endpoint, rawQuery string) (status int, body []b
 	rr := httptest.NewRecorder()
 	ctx, _ := gin.CreateTestContext(rr)
 	ctx.Request = httptest.NewRequest("GET", "/"+endpoint+"?"+rawQuery, nil)
+	allocBefore := w3AllocBytes()
+	defer func() {
+		// a request on a directory of a few hundred kilobytes that makes the server allocate
+		// gigabytes ends the process wherever that much memory is not free ("fatal error: out of
+		// memory" cannot be recovered from): the sizes that drive allocations come from the files
+		if d := w3AllocBytes() - allocBefore; d > 512<<20 {
+			a.violate("C28", "allocation-unbounded", "%s?%s made the server allocate %d MiB for a recording directory of %d KiB (a box size read from a damaged file is used for an allocation without being checked)", endpoint, rawQuery, d>>20, a.dirBytes(root)>>10)
+		}
+	}()
 	func() {
 		defer func() {
 			if r := recover(); r != nil {
@@ -91,6 +101,27 @@ func (a *w3Analysis) call(root, endpoint, rawQuery string) (status int, body []b
 	}()
 	a.queries++
 	return rr.Code, rr.Body.Bytes(), panicText
+}
+
+// w3AllocBytes is the cumulative number of bytes allocated by this process (no stop-the-world).
+func w3AllocBytes() uint64 {
+	sm := []metrics.Sample{{Name: "/gc/heap/allocs:bytes"}}
+	metrics.Read(sm)
+	if sm[0].Value.Kind() == metrics.KindUint64 {
+		return sm[0].Value.Uint64()
+	}
+	return 0
+}
+
+func (a *w3Analysis) dirBytes(root string) int64 {
+	var n int64
+	filepath.Walk(root, func(_ string, fi os.FileInfo, err error) error {
+		if err == nil && !fi.IsDir() {
+			n += fi.Size()
+		}
+		return nil
+	})
+	return n
 }
 
 type w3ListEntry struct {
